@@ -24,6 +24,12 @@ pub struct ReadPlan {
     pub kind: FaultKind,
     /// offsets before which one `Interrupted` is returned (harmless; std retries)
     pub interrupts: Vec<usize>,
+    /// chunking: a single read never crosses one of these offsets (empty = 1 byte per read)
+    #[serde(default)]
+    pub cuts: Vec<usize>,
+    /// serve as many bytes as the caller's buffer takes (bounded by `cuts`), instead of 1
+    #[serde(default)]
+    pub greedy: bool,
     /// after `prefix`, serve this repeated forever (endless input) up to `horizon` bytes
     pub endless_tail: Option<Vec<u8>>,
     pub horizon: usize,
@@ -203,6 +209,24 @@ impl Read for FaultyReader {
         if self.intr_done_at != Some(self.pos) && self.plan.interrupts.contains(&self.pos) {
             self.intr_done_at = Some(self.pos);
             return Err(io::Error::new(io::ErrorKind::Interrupted, "injected EINTR"));
+        }
+        if self.plan.greedy && self.pos < self.data.len() {
+            let mut end = self.data.len().min(self.pos + buf.len());
+            let mut stops: Vec<usize> = self.plan.cuts.clone();
+            stops.extend(self.plan.interrupts.iter().copied());
+            if let Some(f) = self.plan.fail_at {
+                stops.push(f);
+            }
+            for c in stops {
+                if c > self.pos && c < end {
+                    end = c;
+                }
+            }
+            let n = end - self.pos;
+            buf[..n].copy_from_slice(&self.data[self.pos..end]);
+            self.pos = end;
+            st.bytes_pulled += n;
+            return Ok(n);
         }
         let byte = if self.pos < self.data.len() {
             Some(self.data[self.pos])
